@@ -152,6 +152,9 @@ type Config struct {
 	Channels   []cesium.ChannelKey
 	GC         float32 // GC threshold (0 = default)
 	FS         xfs.FS  // optional (default: fresh MemFS)
+	// FindingTag, when set, replaces the kind of a read mismatch in its fingerprint: the
+	// layout is one for which a recorded finding describes a whole family of symptoms.
+	FindingTag string
 	// PointReads asks a schedx harness to wrap the file system so that file reads are
 	// scheduling points (interpreted by the harness, not by cz).
 	PointReads bool
@@ -183,6 +186,8 @@ type World struct {
 	// PartialDelete is set once a multi-channel delete was refused after it had already been
 	// applied to some of its channels (it names the situation in read-mismatch fingerprints).
 	PartialDelete bool
+	// Dels counts the time-range deletes applied to this world.
+	Dels int
 	Reads    int
 	mu       sync.Mutex // guards the reference model when harness threads run concurrently (C09)
 }
@@ -685,6 +690,9 @@ func (w *World) CheckRead(tag string, a, b telem.TimeStamp) error {
 			if w.PartialDelete {
 				kind += ":after-a-delete-refused-for-the-index-but-applied-to-its-data-channels"
 			}
+			if w.Cfg.FindingTag != "" && w.Dels > 0 {
+				kind = "after-a-delete:" + w.Cfg.FindingTag
+			}
 			return vk.Violationf("read-mismatch:"+kind, "[%s] Read[%s,%s) channel %d returned %v, committed samples in range are %v (model %s)", tag, tsName(w, a), tsName(w, b), k, got, want, w.ModelCanon())
 		}
 	}
@@ -898,6 +906,9 @@ func (w *World) deleteModel(k cesium.ChannelKey, a, b telem.TimeStamp) {
 // ApplyDel executes a delete or gc op.
 func (w *World) ApplyDel(op string) (string, error) {
 	f := strings.Fields(op)
+	if f[0] == "del" {
+		w.Dels++
+	}
 	if f[0] == "gc" || f[0] == "rgc" {
 		// rgc = close + reopen + gc: after a reopen no data file is held by the writer pool, so
 		// files below the size cap become collectable too
